@@ -1,6 +1,7 @@
 package props
 
 import (
+	"go/token"
 	"go/types"
 	"fmt"
 	"strings"
@@ -454,14 +455,7 @@ func r062filters(c *an.Ctx, rule string) {
 				if v == ssa.Value(fn.Params[0]) {
 					// returning the change itself is only allowed when the projection is the identity:
 					// guarded by newValue == v.Value
-					eq := false
-					for _, e := range an.GuardingEdges(r) {
-						if bo, isBO := e.If.Cond.(*ssa.BinOp); isBO && e.Branch {
-							_ = bo
-							eq = true
-						}
-					}
-					if !eq {
+					if len(projectionIsIdentity(r, []string{"Value"})) < 1 {
 						okRet = false
 					}
 					continue
@@ -505,14 +499,7 @@ func r062filters(c *an.Ctx, rule string) {
 		for _, r := range an.Returns(fn) {
 			for _, v := range an.ValuesAt(r.Results[0]) {
 				if v == ssa.Value(fn.Params[0]) {
-					nEq := 0
-					for _, e := range an.GuardingEdges(r) {
-						if bo, isBO := e.If.Cond.(*ssa.BinOp); isBO && e.Branch {
-							_ = bo
-							nEq++
-						}
-					}
-					if nEq < 2 {
+					if len(projectionIsIdentity(r, []string{"NewValue", "OldValue"})) < 2 {
 						okRet = false
 					}
 				}
@@ -520,4 +507,57 @@ func r062filters(c *an.Ctx, rule string) {
 		}
 		c.Check(okRet && n > 0, rule, "(*pkg/resource.CollectionChange).filter|projects OldValue and NewValue, keeps the rest", fn.Pos(), "", "CollectionChange.filter does not project both values with the filter or drops Id/kind/time/seed flags")
 	}
+}
+
+// projectionIsIdentity: which of the named fields are known, at return r, to be equal to their own projection
+// (`filter.FilterClone(c.F) == c.F` established on every path to r, however the test is spelled: ==, != with the
+// branches swapped, a conjunction, a named boolean).
+func projectionIsIdentity(r *ssa.Return, fields []string) map[string]bool {
+	out := map[string]bool{}
+	var fact func(cond ssa.Value, holds bool, depth int)
+	fact = func(cond ssa.Value, holds bool, depth int) {
+		if depth > 4 {
+			return
+		}
+		switch x := cond.(type) {
+		case *ssa.UnOp:
+			if x.Op == token.NOT {
+				fact(x.X, !holds, depth+1)
+			}
+		case *ssa.BinOp:
+			if !((x.Op == token.EQL && holds) || (x.Op == token.NEQ && !holds)) {
+				return
+			}
+			for _, pair := range [][2]ssa.Value{{x.X, x.Y}, {x.Y, x.X}} {
+				for _, f := range fields {
+					if isFieldLoad(pair[1], f) && filterCloneOf(pair[0], func(a ssa.Value) bool { return isFieldLoad(a, f) }) {
+						out[f] = true
+					}
+				}
+			}
+		case *ssa.Phi:
+			// a conjunction `a && b` evaluated into a value: when it holds, the only leaf that is not the constant
+			// false holds, together with the conditions on its way in
+			if !holds {
+				return
+			}
+			var live []an.PhiLeaf
+			for _, lf := range an.PhiLeaves(x) {
+				if b, isC := an.ConstBool(lf.Val); isC && !b {
+					continue
+				}
+				live = append(live, lf)
+			}
+			if len(live) == 1 {
+				fact(live[0].Val, true, depth+1)
+				for _, e := range live[0].Conds {
+					fact(e.If.Cond, e.Branch, depth+1)
+				}
+			}
+		}
+	}
+	for _, e := range an.GuardingEdges(r) {
+		fact(e.If.Cond, e.Branch, 0)
+	}
+	return out
 }
